@@ -8,6 +8,8 @@
   (hypotheses on the flattener, where needed, are stated: it ends at `(to, 1)`).
 
   * `transform_commutes`            builder-side = iterator-side = stored transform (positions).
+  * `transform_commutes_stored`     build, then `apply_transform` = build through `Transformed`, slot
+                                    for slot (every view), every index of the walk in bounds.
   * `flatten_only_lines`            every flattening adapter emits begin / line / end only.
   * `flatten_keeps_endpoints`       builder side: every original endpoint, exactly, in order, with
                                     its original attributes; sub-path marks untouched.
@@ -52,18 +54,35 @@ variable {π π' : Type}
 (`iterator::Transformed` / `PathEvent::transformed`) or after storing (`Path::transformed`) gives
 the same events, for EVERY point map `g` (in particular `Xf.apply m` for every affine map `m`)
 and every program: the events of the transformed program are the transformed events of the
-program, and a path stored from a valid program, transformed in place and iterated, yields
-exactly those. -/
+program, and a path stored from a valid program, transformed in place (no `points[…]` of the
+walk outside the storage: `applyTransform` is `some`) and iterated, yields exactly those. -/
 theorem transform_commutes {S : Type} [Inhabited S] (g : Pt S → Pt S) (n : Nat)
     (prog : List (Call (Pt S) (List S))) (hn : WellNested prog) (ha : attrsOk n prog = true) :
     -- builder side = iterator side
     specEvents (xfBuilder g prog) = xfIter g (specEvents prog) ∧
-    -- stored = iterator side (and the stored route reads nothing outside the storage)
-    (buildWithAttributes n prog).bind (fun p => (applyTransform g p).iter)
+    -- stored = iterator side (and the stored route reads/writes nothing outside the storage)
+    (buildWithAttributes n prog).bind (fun p => (applyTransform g p).bind PathData.iter)
       = some (xfIter g (specEvents prog)) := by
   refine ⟨by simpa [specEvents, xfBuilder, xfIter] using specFrom_map g none prog, ?_⟩
   rw [buildWithAttributes_emit n prog ha]
   simpa [xfIter] using stored_transform_iter g n prog hn ha
+
+/-- Stored route at the level of the storage itself: building a path and transforming it in
+place gives, slot for slot, the path built through `builder::Transformed` — positions, control
+points, attribute slots and the copy of the first endpoint that `end(true)` stores (transformed
+by `apply_transform` since lyon commit f78412c3; before it that slot stayed untransformed and
+this statement was false for every program with a closed sub-path).  Hence every view
+(`iter`, `iter_with_attributes`, `id_iter` + stores, `reversed`, `first/last_endpoint`) of the
+transformed path is the view of the transformed program. -/
+theorem transform_commutes_stored {S : Type} [Inhabited S] (g : Pt S → Pt S) (n : Nat)
+    (prog : List (Call (Pt S) (List S))) (hn : WellNested prog) (ha : attrsOk n prog = true) :
+    (buildWithAttributes n prog).bind (applyTransform g)
+      = buildWithAttributes n (xfBuilder g prog) ∧
+    ((buildWithAttributes n prog).bind (applyTransform g)).isSome = true := by
+  have hb := buildWithAttributes_emit n (xfBuilder g prog)
+    (by simpa [xfBuilder, attrsOk_map] using ha)
+  rw [buildWithAttributes_emit n prog ha, hb]
+  simp [xfBuilder, stored_transform g n prog hn ha]
 
 /-- builder side = iterator side needs no hypothesis at all (any program, any point types) -/
 theorem transform_commutes_builder_iter {A : Type} (g : π → π') (prog : List (Call π A)) :
@@ -571,6 +590,14 @@ example : WellNested ([.begin ((0:Int), (0:Int)) [1], .cubic (1, 1) (2, 2) (3, 0
       : List (Call (Pt Int) (List Int))) ∧
     attrsOk 1 ([.begin ((0:Int), (0:Int)) [1], .cubic (1, 1) (2, 2) (3, 0) [2], .end_ true]
       : List (Call (Pt Int) (List Int))) = true := by decide
+
+/-- `transform_commutes_stored` computed on that (closed) program, translated by (10, 20): the
+last two slots are the copy of the first endpoint stored by `end(true)` — transformed — and its
+attribute — untouched -/
+example : ((buildWithAttributes 1 ([.begin ((0:Int), (0:Int)) [1], .cubic (1, 1) (2, 2) (3, 0) [2],
+        .end_ true] : List (Call (Pt Int) (List Int)))).bind
+      (applyTransform fun p => (p.1 + 10, p.2 + 20))).map (·.points)
+    = some [(10, 20), (1, 0), (11, 21), (12, 22), (13, 20), (2, 0), (10, 20), (1, 0)] := by decide
 
 end Examples
 
